@@ -11,7 +11,7 @@ EXPLANATION = ('Deductive: _convert_to_hill_notation (sorted() as a permutation 
 
 
 def units(tier):
-    return ((([F.U_HILL, F.U_HILL_NOTATION, F.L_DEN_PERMUTATION, F.U_COUNT_ATOMS, F.U_ATOMS] + F.U_FORMULA_KINDS) + [FO.U_HILL_KEY]) + [K.L_ATOM_IDENTITY]) + G.U_CONVERT_COMPOUND + [G.U_IMMUTABLE]
+    return ((([F.U_HILL, F.U_HILL_NOTATION, F.L_DEN_PERMUTATION, F.U_COUNT_ATOMS, F.U_ATOMS] + F.U_FORMULA_KINDS) + [FO.U_HILL_KEY]) + [K.L_ATOM_IDENTITY]) + G.U_CONVERT_COMPOUND + [G.U_IMMUTABLE] + G.U_PARSE_FORMULA
 
 
 def runner_tasks(tier):
